@@ -141,13 +141,20 @@ def check_raises(ctx, w, graph):
                     ctx.ob('K-ASSERT', f.construct, 'assert %s' % t[:60], False, line=n.lineno,
                            msg='an assert on the constructor path raises AssertionError (not ELFError) when it fails')
     # helpers raising with a caller-supplied type: elf_assert -> ELFError, dwarf_assert -> DWARFError
+    helper_used = False
     for q, exc in (('elf_assert', 'ELFError'), ('dwarf_assert', 'DWARFError')):
         f = w.model.func('common/utils.py', q)
-        ok = [U(s) for s in f.node.body if not (isinstance(s, ast.Expr) and isinstance(s.value, ast.Constant))] == ['_assert_with_exception(cond, msg, %s)' % exc]
-        ctx.ob('K-RAISE', f.construct, 'raises ' + exc, ok and (exc != 'ELFError' or _is_elferror(w, exc)))
-    f = w.model.func('common/utils.py', '_assert_with_exception')
-    ctx.ob('K-RAISE', f.construct, 'raises the given type iff the condition is false',
-           [U(s) for s in f.node.body] == ['if not cond:\n    raise exception_type(msg)'])
+        body = [U(s) for s in f.node.body if not (isinstance(s, ast.Expr) and isinstance(s.value, ast.Constant))]
+        via_helper = body == ['_assert_with_exception(cond, msg, %s)' % exc]
+        direct = body == ['if not cond:\n    raise %s(msg)' % exc]        # the same written in place
+        helper_used = helper_used or via_helper
+        ctx.ob('K-RAISE', f.construct, 'raises ' + exc, (via_helper or direct) and (exc != 'ELFError' or _is_elferror(w, exc)), got=body)
+    if helper_used:
+        f = w.model.func('common/utils.py', '_assert_with_exception')
+        ctx.ob('K-RAISE', f.construct, 'raises the given type iff the condition is false',
+               [U(s) for s in f.node.body] == ['if not cond:\n    raise exception_type(msg)'])
+    else:
+        ctx.ob('K-RAISE', 'common/utils.py', 'assert helpers raise in place', True)
     for cn in ('ELFParseError', 'ELFRelocationError', 'ELFCompressionError'):
         ctx.ob('K-RAISE', 'common/exceptions.py:' + cn, 'subclass of ELFError', _is_elferror(w, cn))
 
